@@ -756,7 +756,14 @@ impl MutableArchive {
                     .unwrap_or(0)
             });
 
-        let mut attrs = match Attributes::parse(&Bytes::from(attrs_data), block_count) {
+        // The stored file describes the blocks the archive had when it was written: after an
+        // addition the block table is longer, and parsing with the new count would reject the
+        // file and lose the attributes of every untouched file.
+        let stored_count = stored_attribute_entries(&attrs_data)
+            .unwrap_or(block_count)
+            .min(block_count);
+
+        let mut attrs = match Attributes::parse(&Bytes::from(attrs_data), stored_count) {
             Ok(a) => a,
             Err(_) => {
                 // If we can't parse existing attributes, create new ones
@@ -826,11 +833,19 @@ impl MutableArchive {
                 }
             }
 
-            // MD5 calculation would go here if we had the flag set
+            // MD5 of the new content if enabled
             if attrs.flags.has_md5() && filename != "(listfile)" {
-                // For now, preserve existing MD5 or set to zeros
-                if attrs.file_attributes[block_idx].md5.is_none() {
-                    attrs.file_attributes[block_idx].md5 = Some([0u8; 16]);
+                match self.archive.read_file(&filename) {
+                    Ok(data) => {
+                        let mut hasher = Md5::new();
+                        hasher.update(&data);
+                        attrs.file_attributes[block_idx].md5 = Some(hasher.finalize().into());
+                    }
+                    Err(_) => {
+                        if attrs.file_attributes[block_idx].md5.is_none() {
+                            attrs.file_attributes[block_idx].md5 = Some([0u8; 16]);
+                        }
+                    }
                 }
             }
         }
@@ -1468,6 +1483,34 @@ impl Drop for MutableArchive {
         // Attempt to flush changes on drop, but ignore errors
         let _ = self.flush();
     }
+}
+
+/// Number of block entries an (attributes) file of this length holds, from its flags.
+fn stored_attribute_entries(data: &[u8]) -> Option<usize> {
+    if data.len() < 8 {
+        return None;
+    }
+    let flags = AttributeFlags::new(u32::from_le_bytes([data[4], data[5], data[6], data[7]]));
+    let mut per_entry = 0usize;
+    if flags.has_crc32() {
+        per_entry += 4;
+    }
+    if flags.has_filetime() {
+        per_entry += 8;
+    }
+    if flags.has_md5() {
+        per_entry += 16;
+    }
+    let body = data.len() - 8;
+    let size_of = |n: usize| n * per_entry + if flags.has_patch_bit() { n.div_ceil(8) } else { 0 };
+    if per_entry == 0 {
+        return if flags.has_patch_bit() { Some(body * 8) } else { Some(0) };
+    }
+    let mut n = body / per_entry;
+    while n > 0 && size_of(n) > body {
+        n -= 1;
+    }
+    Some(n)
 }
 
 #[cfg(test)]
